@@ -194,6 +194,9 @@ func race(fr *FuncResult, o *Obligation, mode, base string, perOblS int, sem cha
 		file = fmt.Sprintf("%s.o%p%s.smt2", base, o, mode)
 	}
 	os.WriteFile(file, []byte(script), 0o644)
+	if k := os.Getenv("GOVC_KEEPQ"); k != "" && strings.Contains(o.Name, k) {
+		os.WriteFile(fmt.Sprintf("/tmp/keepq.%p.smt2", o), []byte("; "+o.Name+" "+o.Pos+"\n"+script), 0o644)
+	}
 	files := []string{file}
 
 	type ans struct {
